@@ -295,7 +295,10 @@ func run(c *core.Ctx) {
 	var rec func()
 	one := func() {
 		in := Input{Bits: kind == "bits", Path: path, Names: append([]string{}, names...), Values: append([]string{}, vals...)}
-		caseNo, _ := c.Begin()
+		caseNo, run := c.Begin()
+		if c.Skip(caseNo, run, in) {
+			return
+		}
 		c.Exec()
 		c.Validate()
 		c.Edge(int64(len(names)))
